@@ -5,19 +5,21 @@ namespace Frappy.Comm
 
 def visPc (p : Pc) : Bool := match p with | .closing | .visF => true | _ => false
 
-/-- in the states after a closed `recv` only `closeConnection` and then the update `is_connected = false` happen -/
+/-- in the states after a closed `recv` only `closeConnection` and then the update `is_connected = false` happen
+(communicators without identification: nobody else can drop the connection meanwhile) -/
 theorem step_vis (s s' : State) (t c : Nat) (e : Ev) (h : stepCaller s t c e = some s')
-    (hp : visPc (s.callers c).pc = true) :
+    (hid : s.cfg.ident = []) (hp : visPc (s.callers c).pc = true) :
     ((∃ x, e = .hclose x) ∧ visPc (s'.callers c).pc = true) ∨ (∃ x, e = .isconn x false) := by
-  cases hpc : (s.callers c).pc <;> simp [visPc, hpc] at hp <;> cases e <;> simp only [stepCaller, hpc] at h <;> try (simp at h)
+  cases hpc : (s.callers c).pc <;> simp [visPc, hpc] at hp <;> cases e <;> simp only [stepCaller, hpc, connGone] at h <;> try (simp [hid] at h)
   · left; subst h; exact ⟨⟨_, rfl⟩, by simp [visPc]⟩
   · right; obtain ⟨hv, _⟩ := h; subst hv; exact ⟨_, rfl⟩
 
 set_option maxHeartbeats 4000000 in
 /-- a `recv` that reports the closed connection leads there -/
-theorem step_recv_closed (s s' : State) (t c x : Nat) (h : stepCaller s t c (.recv x .closed) = some s') :
-    visPc (s'.callers c).pc = true := by
+theorem step_recv_closed (s s' : State) (t c x : Nat) (h : stepCaller s t c (.recv x .closed) = some s')
+    (hf : identFree (s.callers c)) : visPc (s'.callers c).pc = true := by
   cases hpc : (s.callers c).pc <;> simp only [stepCaller, hpc] at h <;> try (simp at h)
+  all_goals (try (exfalso; simp [identFree, identPc, hpc] at hf; done))
   all_goals (obtain ⟨_, rfl⟩ := h; simp [visPc])
 
 /-- a call returns from `done` (or, doPoll, straight from read_is_connected) -/
@@ -50,8 +52,8 @@ theorem pendingVis_restrict {log : Log} {e : TEv} {c i : Nat} (hlt : i < log.len
   · have := h3 log.length hlt (by simp)
     rwa [evAt_append_eq] at this
 
-theorem vinv_step {log : Log} {s s' : State} (e : TEv) (hv : VInv log s) (h : step s e = some s') :
-    VInv (log ++ [e]) s' := by
+theorem vinv_step {log : Log} {s s' : State} (e : TEv) (hi : Inv log s) (hid : s.cfg.ident = []) (hv : VInv log s)
+    (h : step s e = some s') : VInv (log ++ [e]) s' := by
   refine ⟨fun c i hp => ?_⟩
   have hile : i < (log ++ [e]).length := by
     false_or_by_contra; rename_i hn
@@ -76,7 +78,7 @@ theorem vinv_step {log : Log} {s s' : State} (e : TEv) (hv : VInv log s) (h : st
         have hvis := hv.v c i hold
         by_cases hcc : c = c0
         · subst hcc
-          rcases step_vis _ s' e.t c e.ev h hvis with ⟨_, h2⟩ | ⟨x, hx⟩
+          rcases step_vis _ s' e.t c e.ev h hid hvis with ⟨_, h2⟩ | ⟨x, hx⟩
           · exact h2
           · rw [hx] at hwho; simp only [Ev.who, Option.some.injEq] at hwho
             subst hwho; exact absurd hx hne
@@ -88,22 +90,24 @@ theorem vinv_step {log : Log} {s s' : State} (e : TEv) (hv : VInv log s) (h : st
         rw [hev] at hwho h
         simp only [Ev.who, Option.some.injEq] at hwho
         subst hwho
-        exact step_recv_closed _ s' e.t c c h
+        exact step_recv_closed _ s' e.t c c h (hi.ni hid c)
 
-theorem vinv_exec_gen : ∀ (evs pre : List TEv) (s0 s : State), VInv pre s0 → exec s0 evs = some s → VInv (pre ++ evs) s
-  | [], pre, s0, s, hv, h => by simp [exec] at h; subst h; simpa using hv
-  | e :: es, pre, s0, s, hv, h => by
+theorem vinv_exec_gen : ∀ (evs pre : List TEv) (s0 s : State), Inv pre s0 → s0.cfg.ident = [] → VInv pre s0 →
+    exec s0 evs = some s → VInv (pre ++ evs) s
+  | [], pre, s0, s, _, _, hv, h => by simp [exec] at h; subst h; simpa using hv
+  | e :: es, pre, s0, s, hi, hid, hv, h => by
     simp only [exec] at h
     cases hst : step s0 e with
     | none => simp [hst] at h
     | some s1 =>
       simp only [hst] at h
-      have := vinv_exec_gen es (pre ++ [e]) s1 s (vinv_step e hv hst) h
+      have := vinv_exec_gen es (pre ++ [e]) s1 s (inv_step e hi hst) (by rw [step_keeps_cfg hst]; exact hid)
+        (vinv_step e hi hid hv hst) h
       simpa using this
 
-theorem vinv_exec (cfg : Cfg) (cbs : List Nat) (evs : List TEv) (s : State)
+theorem vinv_exec (cfg : Cfg) (cbs : List Nat) (evs : List TEv) (s : State) (hid : cfg.ident = [])
     (h : exec { cfg := cfg, cbsReg := cbs } evs = some s) : VInv evs s := by
   have h0 : VInv [] { cfg := cfg, cbsReg := cbs } := ⟨fun c i hp => by have := hp.1; simp [evAt] at this⟩
-  simpa using vinv_exec_gen evs [] _ s h0 h
+  simpa using vinv_exec_gen evs [] _ s (inv_init cfg cbs) hid h0 h
 
 end Frappy.Comm
